@@ -44,16 +44,24 @@ fn cycle_refs<T>(this: Link<T>) -> HashMap<Link<T>, usize> {
     let mut cycle_owned_refs = HashMap::default();
     let mut discovered = vec![this];
     let mut visited = HashSet::default();
+    #[cfg(cactusref_verif)]
+    crate::verif::count_trace_call();
 
     // crawl the graph
     while let Some(node) = discovered.pop() {
+        #[cfg(cactusref_verif)]
+        crate::verif::count_trace_pop();
         if visited.contains(&node) {
             continue;
         }
         visited.insert(node);
+        #[cfg(cactusref_verif)]
+        crate::verif::count_trace_visit();
 
         let links = unsafe { node.as_ref().links().borrow() };
         for (&link, &strong) in links.iter() {
+            #[cfg(cactusref_verif)]
+            crate::verif::count_trace_scanned();
             if let Kind::Forward | Kind::Loopback = link.kind() {
                 cycle_owned_refs
                     .entry(link)
